@@ -45,13 +45,13 @@ Proof. exact op_run_facts. Qed.
    reference decoder's - a value or an error, never "out of fuel" - for every schema of the feature set. The Loop
    theorem behind it (C02_every_decode_body) shows that length + 2 iterations of the single-pass parser suffice. *)
 Theorem C04_total_on_arbitrary_bytes : forall s progs idx data t0,
-  gen_all s = GOk progs -> tdec_applies s = true -> bytes_ok data ->
+  gen_all s = GOk progs -> tdec_applies_at s idx = true -> bytes_ok data ->
   let r := pico_unmarshal progs idx data t0 in
   match ref_decode (S (S (S (length data)))) s idx data t0 with
   | Some t'' => fst r = None /\ snd r = t''
   | None => fst r <> None
   end.
-Proof. exact T_dec_b. Qed.
+Proof. exact T_dec_at. Qed.
 
 (* Runtime facts no Gallina model expresses - absence of panics in the Go code, stack growth, wall-clock bounds, the input
    slice left unmodified - are observed by the harness (recover(), watchdog, 10 001-deep nesting, input bytes before/after). *)
